@@ -116,6 +116,14 @@ impl<K: Eq, V> HashMap<K, V> {
         }
         overflow()
     }
+    pub fn retain<F: FnMut(&K, &mut V) -> bool>(&mut self, mut f: F) {
+        let mut i = 0;
+        while i < CAP {
+            let keep = match &mut self.slots[i] { Slot::Full((k, v)) => f(k, v), Slot::Empty => true };
+            if !keep { self.slots[i] = Slot::Empty; }
+            i += 1;
+        }
+    }
     pub fn iter(&self) -> Iter<'_, K, V> { Iter { m: self, i: 0 } }
     pub fn keys(&self) -> hash_map::Keys<'_, K, V> { hash_map::Keys { it: self.iter() } }
     pub fn values(&self) -> impl Iterator<Item = &V> { self.iter().map(|(_, v)| v) }
@@ -180,6 +188,14 @@ impl<T: Eq> HashSet<T> {
             i += 1;
         }
         false
+    }
+    pub fn retain<F: FnMut(&T) -> bool>(&mut self, mut f: F) {
+        let mut i = 0;
+        while i < CAP {
+            let keep = match &self.slots[i] { Slot::Full(x) => f(x), Slot::Empty => true };
+            if !keep { self.slots[i] = Slot::Empty; }
+            i += 1;
+        }
     }
     pub fn iter(&self) -> SetIter<'_, T> { SetIter { s: self, i: 0 } }
     pub fn is_subset(&self, o: &HashSet<T>) -> bool { let mut i = 0; while i < CAP { if let Slot::Full(x) = &self.slots[i] { if !o.contains(x) { return false; } } i += 1; } true }
